@@ -32,7 +32,7 @@ func (c *Case) size() int {
 	if c.Again {
 		n += 3
 	}
-	if c.Stream {
+	if c.Stream || c.Call != "" {
 		n++
 	}
 	if c.Concurrent {
@@ -80,7 +80,7 @@ func (c *Case) candidates() []*Case {
 		return ok
 	})
 	try(func(d *Case) bool { ok := d.Concurrent; d.Concurrent = false; return ok })
-	try(func(d *Case) bool { ok := d.Stream; d.Stream = false; return ok })
+	try(func(d *Case) bool { ok := d.Stream || d.Call != ""; d.Stream, d.Call = false, ""; return ok })
 	try(func(d *Case) bool {
 		ok := d.Interrupt != nil && d.Interrupt.Modifier
 		if ok {
@@ -102,6 +102,12 @@ func (c *Case) candidates() []*Case {
 		for ni := range c.Forest[gi].Nodes {
 			ni := ni
 			nd := c.Forest[gi].Nodes[ni]
+			try(func(d *Case) bool {
+				n := &d.Forest[gi].Nodes[ni]
+				ok := n.Rerun > 0
+				n.Rerun = 0
+				return ok
+			})
 			// remove a node nothing depends on
 			try(func(d *Case) bool {
 				g := &d.Forest[gi]
